@@ -624,15 +624,29 @@ class _ShiftedRange(ast.NodeTransformer):
             cv = c.value
         else:
             cv = None
-        if cv is None or cv == 0:
+        import copy
+        start = None
+        if cv is None:
+            # a loop-invariant name or attribute chain as the start (range(k, n + 1) with s[end - k:end] at the uses)
+            e = c
+            while isinstance(e, ast.Attribute):
+                e = e.value
+            if isinstance(e, ast.Name) and isinstance(c, (ast.Name, ast.Attribute)):
+                written = {t.id for st in node.body for n in ast.walk(st) for t in
+                           (n.targets if isinstance(n, ast.Assign) else [n.target] if isinstance(n, (ast.AugAssign, ast.For)) else [])
+                           for t in ast.walk(t) if isinstance(t, ast.Name)}
+                if e.id not in written and e.id != node.target.id:
+                    start = c
+        if (cv is None or cv == 0) and start is None:
             return node
         if any(isinstance(n, ast.Name) and n.id == node.target.id for n in ast.walk(it.args[1])):
             return node
         _ShiftedRange.counter += 1
         x0 = '_%s_from0_%d' % (node.target.id, _ShiftedRange.counter)
-        stop = ast.BinOp(left=it.args[1], op=ast.Sub(), right=ast.Constant(value=cv))
+        off = (lambda: ast.Constant(value=cv)) if start is None else (lambda: copy.deepcopy(start))
+        stop = ast.BinOp(left=it.args[1], op=ast.Sub(), right=off())
         shift = ast.Assign(targets=[ast.Name(id=node.target.id, ctx=ast.Store())],
-                           value=ast.BinOp(left=ast.Name(id=x0, ctx=ast.Load()), op=ast.Add(), right=ast.Constant(value=cv)))
+                           value=ast.BinOp(left=ast.Name(id=x0, ctx=ast.Load()), op=ast.Add(), right=off()))
         new = ast.For(target=ast.Name(id=x0, ctx=ast.Store()),
                       iter=ast.Call(func=ast.Name(id='range', ctx=ast.Load()), args=[stop], keywords=[]),
                       body=[ast.copy_location(shift, node)] + node.body, orelse=[])
